@@ -1,4 +1,5 @@
 import PegVerif.Proofs.Trace
+import PegVerif.Proofs.NonVacuity
 /-
   C19 – tracing a parse changes nothing but the log.
 
@@ -53,5 +54,75 @@ example :
     (match parseAdvanced env 20 "S" [97, 121] 0 with
      | some (.ok _ _, g) => depthAfter g.log.reverse 0 == some 0 && g.log.any (fun e => match e with | .info "Cache hit" => true | _ => false)
      | _ => false) = true := by decide
+
+/-! ## non-vacuity (BEGIN) -/
+namespace C19_nv
+open Peg.NV
+
+/-! instance 1: `NV.envH [.memoize]` = `@export S = a:Num '+' b:Num | a:Num '-' b:Num | w:Word; @string @memoize Num = …`
+    on `"1-2"` (success; `Num` entered three times inside `S`, once answered from the cache) and on `"1-"` (failure) -/
+def envM : Env := envH [.memoize]
+def profile (l : List Ev) : List (Option Nat) := (List.range (l.length + 1)).map fun i => depthAfter (l.reverse.take i) 0
+
+theorem run_some : (parseAdvanced envM 20 "S" inpH 0).isSome = true := by decide
+def gEnd : Global := ((parseAdvanced envM 20 "S" inpH 0).get run_some).2
+
+/-- `C19_nested` instantiated on the successful run … -/
+example : ((∀ m, ((parseAdvanced envM 20 "S" inpH 0).get run_some).1 ≠ .panic m) → Balanced gEnd.log.reverse) ∧
+    (∀ p, p <+: gEnd.log.reverse → ∀ d, depthAfter p d ≠ none) := C19_nested (run_eq run_some)
+/-- … whose log has 11 events with nesting depth 2 (entries of `Num` inside the entry of `S`), one of them the cache
+    hit; the depth after each prefix: -/
+example : profile gEnd.log = [some 0, some 1, some 2, some 2, some 1, some 2, some 2, some 1, some 2, some 2, some 1, some 0] ∧
+    hits gEnd.log = 1 := by decide
+
+/-- … and on the failing run `"1-"` (13 events, rule exits with `traceErr`) -/
+theorem fail_some : (parseAdvanced envM 20 "S" [49, 45] 0).isSome = true := by decide
+example : ∀ p, p <+: ((parseAdvanced envM 20 "S" [49, 45] 0).get fail_some).2.log.reverse → ∀ d, depthAfter p d ≠ none :=
+  (C19_nested (run_eq fail_some)).2
+example : (match parseAdvanced envM 20 "S" [49, 45] 0 with
+    | some (.err e, g) => e.pos == 2 && profile g.log == [some 0, some 1, some 2, some 2, some 1, some 2, some 2, some 1,
+        some 2, some 2, some 1, some 2, some 1, some 0] &&
+        (g.log.filter fun e => match e with | .traceErr _ => true | _ => false).length == 3
+    | _ => false) = true := by decide
+
+/-- `C19_result_independent_of_log`: the same parse started from a non-empty (even unbalanced) log `l0` -/
+def l0 : List Ev := [.info "left over", .traceStart "X" 9]
+example : ((eval envM 20).rule "S" (St.new inpH) ((Global.init 0).withLog l0)).map (fun p => (p.1, p.2.cache, p.2.uctx)) =
+    (parseAdvanced envM 20 "S" inpH 0).map (fun p => (p.1, p.2.cache, p.2.uctx)) :=
+  C19_result_independent_of_log envM 20 "S" inpH 0 l0
+example : (match (eval envM 20).rule "S" (St.new inpH) ((Global.init 0).withLog l0) with
+    | some (.ok _ s, g) => s.off == 3 && g.log.length == 11 + 2 && g.cache.length == 2 | _ => false) = true := by decide
+
+/-- `C19_log_only_grows` for that run: the premise is a run from the non-empty log -/
+theorem from_l0 : ((eval envM 20).rule "S" (St.new inpH) ((Global.init 0).withLog l0)).isSome = true := by decide
+example : ∃ l, (((eval envM 20).rule "S" (St.new inpH) ((Global.init 0).withLog l0)).get from_l0).2.log = l ++ l0 ∧
+    ∀ l1, (eval envM 20).rule "S" (St.new inpH) (((Global.init 0).withLog l0).withLog l1) =
+      some ((((eval envM 20).rule "S" (St.new inpH) ((Global.init 0).withLog l0)).get from_l0).1,
+            (((eval envM 20).rule "S" (St.new inpH) ((Global.init 0).withLog l0)).get from_l0).2.withLog (l ++ l1)) :=
+  C19_log_only_grows (run_eq from_l0)
+
+/-- `C19_bracket` for the call of `S` -/
+example : ∃ mid, gEnd.log = resultEv ((parseAdvanced envM 20 "S" inpH 0).get run_some).1 ++ mid ++ .traceStart "S" 0 :: [] ∧
+    ((∀ m, ((parseAdvanced envM 20 "S" inpH 0).get run_some).1 ≠ .panic m) → Balanced mid.reverse) :=
+  C19_bracket (env := envM) (r0 := ruleH) (s := St.new inpH) (g := Global.init 0) rfl (run_eq run_some)
+
+/-! instance 2: a `@leftrec` rule, `@export @leftrec E = l:*E '+' r:Num | b:Num;` on `"1+2"` – the body is re-evaluated
+    by the grow loop, each time inside the single entry of `E` -/
+def ruleE : Rule := ⟨[.export, .leftrec], "E",
+  .choice [.seq [.field (some (.ident "l")) true "E", lit '+', fld "r" "Num"], .seq [fld "b" "Num"]]⟩
+def envE : Env := { g := ⟨[.rule ruleE, .rule (ruleNum [])]⟩, settings := {}, hooks := default, nf := 10 }
+theorem lr_some : (parseAdvanced envE 30 "E" [49, 43, 50] 0).isSome = true := by decide
+example : ((∀ m, ((parseAdvanced envE 30 "E" [49, 43, 50] 0).get lr_some).1 ≠ .panic m) →
+      Balanced ((parseAdvanced envE 30 "E" [49, 43, 50] 0).get lr_some).2.log.reverse) ∧
+    (∀ p, p <+: ((parseAdvanced envE 30 "E" [49, 43, 50] 0).get lr_some).2.log.reverse → ∀ d, depthAfter p d ≠ none) :=
+  C19_nested (run_eq lr_some)
+example : (match parseAdvanced envE 30 "E" [49, 43, 50] 0 with
+    | some (.ok _ s, g) => s.off == 3 && g.log.length == 23 && depthAfter g.log.reverse 0 == some 0 &&
+        bodyEvals g.log "E" 0 == 3 &&
+        (g.log.filter fun e => match e with | .info "Cache hit (left recursive)" => true | _ => false).length == 3
+    | _ => false) = true := by decide
+
+end C19_nv
+/-! ## non-vacuity (END) -/
 
 end Peg.Props
